@@ -243,6 +243,12 @@ func genVP8PayCase(t *rapid.T) *VP8PayCase {
 		}
 		c.Frames = append(c.Frames, VP8Frame{Len: l, Seed: rapid.Uint64().Draw(t, "seed")})
 	}
+	if rapid.IntRange(0, 59).Draw(t, "jumbo") == 0 {
+		if c.MTU < 1000 {
+			c.MTU = uint16(rapid.SampledFrom([]int{1200, 9000, 65535}).Draw(t, "jumbomtu"))
+		}
+		c.Frames[rapid.IntRange(0, len(c.Frames)-1).Draw(t, "jumboframe")].Len = rapid.SampledFrom([]int{65530, 65532, 65534, 65535, 65536, 65537, 65540, 70000, 131072, 200000}).Draw(t, "jumbolen")
+	}
 
 	return c
 }
@@ -269,7 +275,7 @@ func genVP8DescCase(t *rapid.T) *VP8DescCase {
 	return c
 }
 
-const ruleC11 = "payloader: picture ids on/off, running id advanced to {0,1,2,5,125-129,32765-32769} by fast-forwarding 1-byte frames, 1-4 frames of 1-3000 bytes biased to k*(MTU-descriptor)+-1, MTU > descriptor size biased to +1..+3; every packet is decoded by VP8Packet and by an independent RFC 7741 parser: payload concatenation = frame, S/IsPartitionHead first only, PID 0, <= MTU, id present in every packet (7-bit form < 128, 15-bit from 128), +1 per frame mod 2^15. descriptor: all X/I/L/T/K/M combinations with arbitrary field values and reserved bits from the reference builder, payload 0-40 bytes, truncations at every prefix 0-7; VP8Packet (receiver preloaded with other values) must read exactly the reference parse and reject cut descriptors; thorough adds all 2^16 first-two-octet combinations. Non-trivial = frame split into >=2 packets with ids on, id in {0,127,128,32767}, descriptor with >=2 optional fields or a truncation; distinct = FNV-64 of the JSON case"
+const ruleC11 = "payloader: picture ids on/off, running id advanced to {0,1,2,5,125-129,32765-32769} by fast-forwarding 1-byte frames, 1-4 frames of 1-3000 bytes (one case in 60: a frame of 65530-200000 bytes) biased to k*(MTU-descriptor)+-1, MTU > descriptor size biased to +1..+3; every packet is decoded by VP8Packet and by an independent RFC 7741 parser: payload concatenation = frame, S/IsPartitionHead first only, PID 0, <= MTU, id present in every packet (7-bit form < 128, 15-bit from 128), +1 per frame mod 2^15. descriptor: all X/I/L/T/K/M combinations with arbitrary field values and reserved bits from the reference builder, payload 0-40 bytes, truncations at every prefix 0-7; VP8Packet (receiver preloaded with other values) must read exactly the reference parse and reject cut descriptors; thorough adds all 2^16 first-two-octet combinations. Non-trivial = frame split into >=2 packets with ids on, id in {0,127,128,32767}, descriptor with >=2 optional fields or a truncation; distinct = FNV-64 of the JSON case"
 
 func TestC11(t *testing.T) {
 	r := begin(t, "C11", "exploration", ruleC11)
